@@ -188,25 +188,22 @@ impl Canonical {
         let mut candidates = BTreeMap::<_, usize>::new();
 
         // Build a list of candidate commits and count how many "votes" each of them has.
-        // Commits get a point for each direct vote, as well as for being part of the ancestry
-        // of a commit given to this function. Only commits given to the function are considered.
-        for (i, head) in self.tips.values().enumerate() {
-            // Add a direct vote for this head.
-            *candidates.entry(*head).or_default() += 1;
+        // A commit gets one vote from every delegate whose tip is that commit, or has that
+        // commit in its ancestry. Only commits given to this function are considered.
+        for head in self.tips.values() {
+            if candidates.contains_key(head) {
+                continue;
+            }
+            let mut votes = 0;
 
-            // Compare this head to all other heads ahead of it in the list.
-            for other in self.tips.values().skip(i + 1) {
-                // N.b. if heads are equal then skip it, otherwise it will end up as
-                // a double vote.
-                if *head == *other {
-                    continue;
-                }
-                let base = Oid::from(repo.merge_base(**head, **other)?);
-
-                if base == *other || base == *head {
-                    *candidates.entry(base).or_default() += 1;
+            // N.b. every delegate is counted at most once per candidate, no matter how
+            // many other delegates share its tip.
+            for other in self.tips.values() {
+                if *head == *other || Oid::from(repo.merge_base(**head, **other)?) == *head {
+                    votes += 1;
                 }
             }
+            candidates.insert(*head, votes);
         }
         // Keep commits which pass the threshold.
         candidates.retain(|_, votes| *votes >= self.threshold);
